@@ -27,6 +27,7 @@ TARGETS = [("/", None), ("/a?b=c", None), ("/a;p=1", None), ("/", b"*"), ("/", b
 HEADER_ALPHABET = [
     ("Host", "given.example"), ("Content-Length", None), ("Transfer-Encoding", "chunked"), ("X-A", "1"), ("x-a", "2"), ("X-E", ""),
     ("X Y", "1"), ("X-Bad", "a\r\nb"),
+    ("TE", "gzip"),      # legal on HTTP/1.1; on HTTP/2 only "TE: trailers" may be sent (RFC 9113 8.2.2): must be rejected locally there
 ]
 BODIES = ["none", "empty", "bytes", "iter:abc", "iter:a,bc", "iter:,abc,", "iter:a,,b,c", "iter:"]
 BODY_BYTES = b"abc"
@@ -131,6 +132,8 @@ def run_case(case, proto, variant):
             return chunks
         return iter(list(chunks)) if variant == "sync" else _AIter(chunks)
 
+    final = []        # a plain request afterwards: whatever the shape did (sent, or rejected locally), the pool must still serve it
+    url_final = f"{scheme}://a.example/t/final"
     if variant == "sync":
         def prog():
             for _ in range(2):
@@ -139,6 +142,11 @@ def run_case(case, proto, variant):
                     results.append(("ok", r.status))
                 except Exception as e:
                     results.append(("exc", e))
+            try:
+                r = pool.request("GET", url_final)
+                final.append(("ok", r.status, r.content))
+            except Exception as e:
+                final.append(("exc", e))
             pool.close()
         res = w.run(sync_fn=prog)
     else:
@@ -149,6 +157,11 @@ def run_case(case, proto, variant):
                     results.append(("ok", r.status))
                 except Exception as e:
                     results.append(("exc", e))
+            try:
+                r = await pool.request("GET", url_final)
+                final.append(("ok", r.status, r.content))
+            except Exception as e:
+                final.append(("exc", e))
             await pool.aclose()
         res = w.run(async_fn=aprog)
 
@@ -164,6 +177,10 @@ def run_case(case, proto, variant):
     if res[0] != "ok":
         bad("harness-" + res[0], f"program did not finish: {res}")
         return out
+    if final[:1] != [("ok", 200, b"<final>")]:
+        f0 = final[0] if final else None
+        bad("following-request", f"a plain GET sent after this request shape gave {(f0[0], exc_class(f0[1]) + ': ' + str(f0[1])) if f0 and f0[0] == 'exc' else f0}: "
+            f"the shape left the pool / connection in a state that breaks later requests (earlier results: {[(r_[0], exc_class(r_[1]) if r_[0] == 'exc' else r_[1]) for r_ in results]})")
     mb, tb = m.encode(), (target_ext if target_ext is not None else path.encode())
     hb = [(k.encode(), v.encode()) for k, v in headers]
     legal = bool(TOKEN_RE.match(mb)) and bool(TARGET_OK.match(tb)) and all(TOKEN_RE.match(k) and FIELD_VALUE_OK.match(v) for k, v in hb)
@@ -184,16 +201,16 @@ def run_case(case, proto, variant):
 
     if proto == "h1":
         conns = topo.all_h1_conns()
-        reqs = [r for c in conns for r in c.parser.requests]
+        reqs = [r for c in conns for r in c.parser.requests if not r.target.endswith(b"/t/final")]
         errs = [e for c in conns for e in c.parser.errors]
         if not legal:
             for r_ in results:
                 if r_[0] != "exc" or not isinstance(r_[1], httpcore.LocalProtocolError):
                     bad("illegal-not-rejected", f"illegal request head gave {r_[0]}:{exc_class(r_[1]) if r_[0] == 'exc' else r_[1]} instead of LocalProtocolError")
-            written = sum(len(op.args["data"]) for op in w.net.ledger if op.kind == "write")
+            written = sum(len(op.args["data"]) for op in w.net.ledger if op.kind == "write" and b"/t/final" not in op.args["data"])
             if via and ctd["proxy"]:
                 # proxy negotiation bytes are legitimate; what counts is what reached the HTTP peer behind / inside the proxy
-                written = sum(len(c.parser.buf) + len(c.parser.requests) + len(c.parser.errors) for c in conns)
+                written = sum(len(c.parser.buf) + len([q for q in c.parser.requests if not q.target.endswith(b"/t/final")]) + len(c.parser.errors) for c in conns)
             if written:
                 bad("illegal-bytes-written", f"{written} bytes written for a request that must be rejected: {bytes(w.net.transports[0].written)[:80]!r}")
             return out
@@ -229,10 +246,18 @@ def run_case(case, proto, variant):
 
     # ---- HTTP/2
     conns = topo.all_h2_conns()
-    streams = [c.streams[sid] for c in conns for sid in c.order]
+    streams = [c.streams[sid] for c in conns for sid in c.order if not any(k == b":path" and v.endswith(b"/t/final") for k, v in c.streams[sid].headers)]
     complaints = [v for c in conns for v in c.violations]
     if not legal:
         # not judged on HTTP/2: HPACK can encode any octets, the statement's "cannot legally be encoded" is an HTTP/1.1 notion
+        return out
+    if any(k.lower() == b"te" and v != b"trailers" for k, v in hb):
+        # the one shape of the alphabet that HTTP/2 forbids and h2 refuses to send
+        for r_ in results:
+            if r_[0] != "exc" or not isinstance(r_[1], httpcore.LocalProtocolError):
+                bad("illegal-not-rejected", f"TE: gzip on HTTP/2 gave {r_[0]}:{exc_class(r_[1]) if r_[0] == 'exc' else r_[1]} instead of LocalProtocolError")
+        if streams:
+            bad("illegal-bytes-written", f"{len(streams)} stream(s) opened for a request that must be rejected")
         return out
     if complaints:
         bad("wire-unparseable", f"h2 peer: {complaints[:2]}")
@@ -311,7 +336,7 @@ def check(tier="quick", seed=0, workers=None, only=None):
                for c in allc[:: max(1, len(allc) // 5)][:5]]
     cov = {
         "evaluations": total, "distinct_nontrivial": len(classes), "exhaustive": True,
-        "rule": ("full product method x target x header sequence (length <= %d over an 8-symbol alphabet incl. illegal names/values) x body form, "
+        "rule": ("full product method x target x header sequence (length <= %d over a 9-symbol alphabet incl. illegal names/values and one HTTP/2-only illegal field) x body form, "
                  "each on HTTP/1.1 and HTTP/2, sync and async, sent twice per pool (first use + reuse); a sub-product of the shapes again over the ten other "
                  "connection types (TLS, ALPN-negotiated, forward / tunnel / SOCKS proxies); distinct class = (illegal method?, target, header-name set, body form, protocol, violated?)"
                  % (2 if tier == "quick" else 3)),
